@@ -1,6 +1,6 @@
 CONSTANTS
   Vocab <- VocabIriBig
-  MaxSegs = 6
+  MaxSegs = 5
   Fam = "iri"
 INIT Init
 NEXT Next
